@@ -22,7 +22,10 @@ TMP_RE = re.compile(r"^\.ClientConf\.([0-9a-zA-Z]{5})\.tmp$")
 STORE_OPS = ("setconf", "setgen", "setdecoys", "setpubkey", "setsubnets")
 READONLY_CALLS = {"newfstatat", "stat", "lstat", "statx", "access", "faccessat", "faccessat2", "readlink",
                   "readlinkat", "statfs", "getxattr", "lgetxattr", "listxattr", "llistxattr", "fstat", "chdir",
-                  "inotify_add_watch", "execve"}
+                  "inotify_add_watch", "execve", "fsync", "fdatasync", "sync_file_range", "syncfs"}
+# calls that neither create nor change the content of a file; ignored on temporaries (clean-up, permissions)
+TMP_HOUSEKEEPING = {"unlink", "unlinkat", "chmod", "fchmod", "fchmodat", "fchmodat2", "chown", "fchown", "fchownat",
+                    "utimensat", "utime", "utimes", "futimesat"}
 
 
 def b62(s):
@@ -316,7 +319,11 @@ def proj_path(p, dirs):
             m = TMP_RE.match(base)
             if m:
                 return (i, ("Tmp", b62(m.group(1))))
-            return (i, ("Other", sum(base.encode()) % 1000))
+            # any other file of the directory plays the role of a temporary (the naming scheme is not the property)
+            h = 0
+            for ch in base.encode():
+                h = (h * 131 + ch) % 1000003
+            return (i, ("Tmp", 62 ** 5 + h))
     return (99, ("Other", 0))
 
 
@@ -355,10 +362,7 @@ def project_trace(lines, dirs):
                 continue    # opened for reading
             pp = proj_path(path, dirs)
             ok = c["ret"] is not None and c["ret"] >= 0
-            if flags - {"O_CLOEXEC", "O_LARGEFILE"} == {"O_WRONLY", "O_CREAT", "O_TRUNC"}:
-                steps[cur].append(("TCreate", pp, ok))
-            else:
-                steps[cur].append(("TOther", 2))
+            steps[cur].append(("TCreate", pp, ok))
             if ok:
                 fds[path] = [0, True, pp]
             if pp[1][0] == "Tmp":
@@ -392,7 +396,10 @@ def project_trace(lines, dirs):
             else:
                 steps[cur].append(("TOther", 5))
             continue
-        steps[cur].append(("TOther", 6, name))
+        ps = [proj_path(x, dirs) for x in re.findall(r'"([^"]*)"', args) + re.findall(r"\d+<([^>]*)>", args)]
+        if name in TMP_HOUSEKEEPING and ps and all(q[1][0] == "Tmp" or q[0] == 99 for q in ps):
+            continue
+        steps[cur].append(("TOther", 6, name, any(q[1][0] == "Target" for q in ps)))
     return steps, rs, notes
 
 
@@ -467,6 +474,7 @@ def eval_scripted(ctx, c, out):
     disk = {}                          # dir index -> hex content or None (as last listed)
     cwd = None
     mem_before = None
+    mem0 = None
     valid = set(c.valid)
     items = []
     trace_terms = []
@@ -517,7 +525,7 @@ def eval_scripted(ctx, c, out):
         mem_hex = hx(memd) if memd and memd["has"] else None
         if o == "setdir":
             d = int(op["dir"][2:])
-            if mem_before is None:
+            if mem0 is None:
                 mem0 = mem_hex           # the defaults, read after the first (failing) load from the scratch directory
                 cwd = d
                 mem_before = mem_hex
@@ -609,8 +617,12 @@ def eval_scripted(ctx, c, out):
             if s[0] in ("TCreate", "TAppend") and s[1][1][0] == "Target":
                 ctx.fail("trace:target-written-in-place", "the store opens/writes the ClientConf file itself (%s): a crash between "
                          "these system calls leaves a truncated file" % s[0], case_id)
+            if s[0] == "TOther" and len(s) > 3 and s[3]:
+                ctx.fail("trace:target-modified-outside-rename", "the store applies %s to the ClientConf file itself: a crash right "
+                         "after it leaves no (or a damaged) ClientConf" % s[2], case_id)
             if s[0] == "TRename" and s[2][1][0] == "Target" and (s[1][0] != s[2][0] or s[1][1][0] != "Tmp"):
-                ctx.broken("correspondence", "the temporary renamed over ClientConf is not a .ClientConf.*.tmp in the same directory: %s" % (s,), case_id)
+                if not any(b["kind"] == "correspondence" and "same directory" in b["what"] for b in ctx.brokens):
+                    ctx.broken("correspondence", "the file renamed over ClientConf is not a temporary in the same directory: %s" % (s,), case_id)
         for dd, cont in after_ls.items():
             disk[dd] = cont
         mem_before = mem_hex
@@ -621,7 +633,7 @@ def eval_scripted(ctx, c, out):
         opt = "SetConf %s" % wt if o == "setconf" else "Mutate (fun _ => %s)" % wt
         items.append("IOp (%s) (%s) (%s, %s)" % (opt, pl, gbool(ok), gopt(mem_hex, lambda h: "(Lit %s)" % hexs(bytes.fromhex(h)))))
         trace_terms += [g_tstep(s) for s in stp]
-    vt = glist(sorted(valid), lambda h: hexs(bytes.fromhex(h)))
+    vt = glist(sorted(v for v in valid if v is not None), lambda h: hexs(bytes.fromhex(h)))
     term = "(%s, %s, %s, %s, %s)" % (vt, hexs(bytes.fromhex(mem0)), gN(c.ndirs - 1), "[" + ";\n  ".join(items) + "]", glist(trace_terms))
     return term
 
